@@ -203,6 +203,33 @@ func registerVAPI(I map[string]intrinsicFn) {
 		w.obligation("assert", id, a[1].(*Term), "assertion "+id+" violated")
 		return nil
 	}
+	// vFinding: the harness has recognised a specific failing history; it is
+	// reported like a failed assertion, and the path goes on (so that what
+	// follows the failure can still be checked).
+	I[P+"vFinding"] = func(w *Worker, fn *ssa.Function, a []Value) Value {
+		id := w.concStr(a[0], "finding id")
+		w.h.mu.Lock()
+		w.h.Obligations++
+		w.h.Asserted[id]++
+		w.h.mu.Unlock()
+		if w.h.Concrete != nil {
+			w.report(&Violation{Kind: "assert", ID: id, Msg: "finding " + id})
+			return nil
+		}
+		w.h.mu.Lock()
+		_, seen := w.h.Violations["assert:"+id]
+		w.h.mu.Unlock()
+		if seen {
+			return nil
+		}
+		r, m := w.check(nil, true)
+		if r == Sat {
+			w.report(&Violation{Kind: "assert", ID: id, Msg: "finding " + id + " (history recognised by the harness)", Model: m})
+		} else if r == Unknown {
+			w.recordUnknown("finding:" + id)
+		}
+		return nil
+	}
 	I[P+"vReach"] = func(w *Worker, fn *ssa.Function, a []Value) Value {
 		id := w.concStr(a[0], "reach id")
 		w.h.mu.Lock()
